@@ -568,10 +568,9 @@ def grammar_shapes(max_nodes, max_depth=3, max_members=2):
         yield body, n
 
 
-def shape_program(name, shape, same_names=False):
-    """Instantiate a shape: leaf types rotate int32,string,bool by position."""
+def shape_program(name, shape, same_names=False, rot=('int32', 'string', 'bool')):
+    """Instantiate a shape: leaf types rotate (int32,string,bool by default) by position."""
     cnt = itertools.count()
-    rot = ['int32', 'string', 'bool']
 
     def build(ms, depth):
         out = []
@@ -579,7 +578,7 @@ def shape_program(name, shape, same_names=False):
             idx = next(cnt)
             nm = chr(ord('A') + (idx % 26)) + ('' if idx < 26 else str(idx // 26))
             if m[0] == 'L':
-                out.append(leaf(nm, rot[idx % 3], m[1], tag=nm.lower()))
+                out.append(leaf(nm, rot[idx % len(rot)], m[1], tag=nm.lower()))
             else:
                 gname = 'G' + nm
                 tag = 'g' if same_names else gname.lower()
